@@ -150,7 +150,7 @@ def failing_theorems(lean_file, log):
     return sorted(bad)
 
 
-def build(prop_id, bridge_modules=(), props_modules=None):
+def build(prop_id, bridge_modules=(), props_modules=None, recheck=False):
     """Regenerate Extracted.lean from /repo, build, gate, audit.
     Returns BuildResult. Raises HarnessError only for infrastructure trouble
     (the model itself or the driver not compiling)."""
@@ -229,6 +229,14 @@ def build(prop_id, bridge_modules=(), props_modules=None):
             res.obligations.append('audit:axioms-subset-of-standard')
             if len(res.axioms) != len(audit):
                 raise HarnessError(f'axiom audit saw {len(res.axioms)} of {len(audit)} theorems:\n{out[-2000:]}')
+        # 6. thorough tier: the compiled theorem modules are re-checked by leanchecker (an independent run of the kernel
+        #    over the .olean files)
+        if recheck:
+            rc, out = _run(['lake', 'env', 'leanchecker'] + list(props_modules), cwd=LEAN, timeout=3000)
+            res.log += out
+            res.obligations.append('leanchecker:' + ','.join(props_modules))
+            if rc != 0:
+                raise HarnessError('leanchecker rejects a compiled module:\n' + out[-3000:])
     finally:
         fcntl.flock(lockf, fcntl.LOCK_UN)
         lockf.close()
